@@ -2,6 +2,7 @@ package poolmon
 
 import (
 	"fmt"
+	"math"
 	"math/rand"
 	"runtime"
 	"sort"
@@ -43,11 +44,16 @@ type Resp struct {
 
 type Key struct{ Id int64 }
 
+// ownerMark is the key under which every caller marks the result map it received.
+const ownerMark = "\x00owner"
+
 // apiKeyId identifies the pool's own object registered under the name k4.
 const apiKeyId = -1
 
 // poolsOwn: probe rule p4 read the pool's own k4 (not the data of any request).
-func poolsOwn(name string, v interface{}) bool { return name == "p4" && v == interface{}(int64(apiKeyId)) }
+func poolsOwn(name string, v interface{}) bool {
+	return name == "p4" && v == interface{}(int64(apiKeyId))
+}
 
 // GetId is called by the probe rules p2 / p4 (a method of a request-scoped object).
 func (k *Key) GetId() int64 { return k.Id }
@@ -367,6 +373,10 @@ func (s *Storm) genCall(r *rand.Rand, gateOnly bool) trace.Call {
 			c.N = 0
 		case 1:
 			c.M = len(stormNames) + 3
+		case 2:
+			// n+m overflows: the request ends with a panic in the caller's goroutine (slice bounds) - like every
+			// request it has to hand its instance back
+			c.N, c.M = math.MaxInt64, 1
 		}
 	case trace.MSelNSortMConc, trace.MSelNConcMSort, trace.MSelNConcMConc:
 		tot := 2 + r.Intn(7)
@@ -415,6 +425,14 @@ func (s *Storm) fire(r *rand.Rand, c trace.Call, fail, boom bool, holdUs int64, 
 	resp := &Resp{Token: tokenOf(id)}
 	d := &done{id: id, call: c, resp: resp, injected: map[string]bool{}, healthy: !fail && !boom && !req.Fail2, fail2: req.Fail2}
 	c.Data = map[string]interface{}{"Req": req, "Resp": resp}
+	if c.Method == trace.MPoolEM && keys != nil && !fail && !boom && r.Intn(5) == 0 {
+		// a request that fills only the SECOND of the two object slots (its key object k3): its rules that
+		// need Req fail, p3 reads k3 - and k3 has to be gone afterwards like every injected name
+		c.Data = map[string]interface{}{"\x00second-slot-only": &Key{Id: id}}
+		d.injected["k3"] = true
+		d.healthy = false
+		s.k.Count("requests_filling_only_the_second_slot", 1)
+	}
 	if c.Method != trace.MPoolEM {
 		for _, kx := range keys {
 			c.Data[kx] = &Key{Id: id}
@@ -428,6 +446,13 @@ func (s *Storm) fire(r *rand.Rand, c trace.Call, fail, boom bool, holdUs int64, 
 	s.goidReq.Delete(g)
 	d.retSeq = atomic.AddInt64(&s.seq, 1)
 	d.res, d.err, d.pan = out.Result, out.Err, out.Panic
+	// callers own the map they get: this one leaves its mark in it, and must not find anyone else's
+	if out.Result != nil {
+		if o, ok := out.Result[ownerMark]; ok {
+			s.find("iso", "pool."+c.Method+"/result-map-shared", fmt.Sprintf("pool.%s: the result map handed to request %d is the one request %v received (its owner mark is in it)", c.Method, id, o), nil)
+		}
+		out.Result[ownerMark] = -id
+	}
 	d.snap = map[string]interface{}{}
 	for k, v := range out.Result {
 		d.snap[k] = v
@@ -444,7 +469,7 @@ func (s *Storm) fire(r *rand.Rand, c trace.Call, fail, boom bool, holdUs int64, 
 func (s *Storm) checkIdentity(d *done, when string) {
 	m := "pool." + d.call.Method
 	for name, v := range d.res {
-		if poolsOwn(name, v) && !d.injected["k4"] {
+		if name == ownerMark || (poolsOwn(name, v) && !d.injected["k4"]) {
 			continue
 		}
 		iv, ok := v.(int64)
@@ -717,7 +742,7 @@ func (s *Storm) Run(clients, perClient int, faults bool) {
 					boom = true
 					s.k.Count("requests_ending_in_a_caller_panic", 1)
 				}
-				var keys []string
+				keys := []string{} // non-nil: a request of the storm proper (the gated phases pass nil)
 				for _, kx := range []string{"k1", "k2", "k3", "k4"} {
 					if rr.Intn(3) == 0 {
 						keys = append(keys, kx)
